@@ -53,6 +53,12 @@ def run(chk, repo):
     r2(chk, repo)
     helper_sites(chk, repo)
     r6(chk, repo)
+    bracket_writes(chk, repo)
+    from ..dsl import Ctx as Dsl
+    from . import c01
+    chk.doc("R01.5", "sign-extension table (shared with C01): no zero or "
+                     "negative shift amount is ever emitted")
+    c01.r5_signext(chk, repo, Dsl(repo))
     sh.watermark_rules(chk, repo, "R05.7")
     sh.member_symmetry(chk, repo, "R05.8")
     sh.guard_strictness(chk, repo, "R05.9")
@@ -245,6 +251,76 @@ def following_blocks(st):
                 out += b[b.index(p) + 1:]
         cur = p
     return out
+
+
+REG_VIEWS = ("r", "w", "sr", "sw", "x")
+
+
+def reg_store_target(t):
+    """(view, number expression | int) if the target writes a register"""
+    if isinstance(t, ast.Attribute):
+        for v in sorted(REG_VIEWS, key=len, reverse=True):
+            if t.attr.startswith(v) and t.attr[len(v):].isdigit():
+                return v, int(t.attr[len(v):])
+    if isinstance(t, ast.Subscript) and isinstance(t.value, ast.Attribute) \
+            and t.value.attr in REG_VIEWS:
+        n = t.slice
+        if isinstance(n, ast.Constant) and isinstance(n.value, int):
+            return t.value.attr, n.value
+        return t.value.attr, n
+    return None
+
+
+def bracket_writes(chk, repo):
+    """inside a save_registers bracket the values of the saved registers
+    are parked in *free* registers: the body may only write the helper
+    ABI registers r0-r5 (or the one register it excluded from saving)"""
+    n = 0
+    for m in repo.production_modules():
+        for w in ast.walk(m.tree):
+            if not isinstance(w, ast.With):
+                continue
+            items = [it.context_expr for it in w.items if isinstance(
+                it.context_expr, ast.Call) and isinstance(
+                    it.context_expr.func, ast.Attribute)
+                and it.context_expr.func.attr == "save_registers"]
+            if not items:
+                continue
+            n += 1
+            excluded = set()
+            for c in ast.walk(items[0]):
+                if isinstance(c, ast.Compare) and len(c.ops) == 1 and \
+                        isinstance(c.ops[0], ast.NotEq):
+                    excluded.add(unparse(c.comparators[0]))
+                    excluded.add(unparse(c.left))
+            bad = []
+            for st in ast.walk(w):
+                tg = []
+                if isinstance(st, ast.Assign):
+                    tg = st.targets
+                elif isinstance(st, ast.AugAssign):
+                    tg = [st.target]
+                for t in tg:
+                    r = reg_store_target(t)
+                    if r is None:
+                        continue
+                    no = r[1]
+                    if isinstance(no, int):
+                        if no > 5:
+                            bad.append((st, f"r{no}"))
+                    elif unparse(no) not in excluded:
+                        bad.append((st, unparse(no)))
+            chk.ob("R05.6", func_qual(repo, w), f"`with {unparse(items[0])[:48]}`"
+                   f": the body writes only r0-r5 or the register it did "
+                   f"not save", not bad, bad[0][0] if bad else w,
+                   f"`{unparse(bad[0][0])[:60]}` writes register "
+                   f"{bad[0][1]} inside the bracket: the saved registers are "
+                   f"parked in whatever registers were free, this one may "
+                   f"be among them, and the restore then copies the new "
+                   f"value over the saved register (r1 = map pointer "
+                   f"instead of the context)" if bad else
+                   "parked values cannot be overwritten")
+    chk.floor("R05.6", "save_registers brackets", n, 8)
 
 
 def r6(chk, repo):
